@@ -331,6 +331,13 @@ func Main(prop string) {
 		}
 		for _, rr := range c.RRs {
 			for _, o := range rr.Prog {
+				if o.Kind == "cache" && o.Key >= 100 {
+					run.Hist("shape:deep-nesting-of-cache-calls-over-a-wide-key-alphabet")
+				}
+			}
+		}
+		for _, rr := range c.RRs {
+			for _, o := range rr.Prog {
 				if o.Kind == "cache" && o.Alt && len(o.Body) == 1 {
 					run.Hist("shape:cache-key-left-out-for-a-run-then-asked-for-again")
 				}
